@@ -6,9 +6,7 @@ PROP = dict(
     ],
     bounds="every f64 / i64 / u64 scalar and every 3-byte ASCII string, presented through serde's in-memory deserializers (F64Deserializer, I64Deserializer, U64Deserializer, StrDeserializer, MapDeserializer); maps with 0..=2 entries, keys from {forward, backward, <unknown>} (concrete per harness), in both orders, with duplicates",
     outside="TOML text parsing (the toml crate loops over the input; whole-document totality of Config loading is not decided); maps with more than two entries; the other f64 fields of the daemon configuration (plain f64, no custom validation code)",
-    assumptions=[
-        "c39_map_*: per-direction values are not NaN, not negative (those are the known-finding twin c39_map_kf_unvalidated_part) and not +inf (+inf reaches debug_assert!(!is_infinite) in NtpDuration::from_seconds: dev profile only; in release it saturates to NtpDuration::MAX, i.e. an unlimited threshold)",
-    ],
+    assumptions=[],
     stub_notes=["serde error type of the harness (E0) discards messages instead of formatting them"],
     harnesses=[
         H(NM, "c39", "c39_single", "single-number form: Ok => finite, >= 0, both directions equal and non-negative; NaN/inf/negative rejected; only \"inf\" accepted as string", timeout=600),
@@ -20,6 +18,6 @@ PROP = dict(
         H(NM, "c39", "c39_map_two_fb", "{forward, backward}: both parts None or >= 0", timeout=600),
         H(NM, "c39", "c39_map_two_bf", "{backward, forward}", timeout=600),
         H(NM, "c39", "c39_duration", "NtpDuration / accumulated threshold: NaN and inf rejected, zero = disabled", timeout=600),
-        H(NM, "c39", "c39_map_kf_unvalidated_part", "EXPECTED TO FAIL (finding): {forward = NaN | negative} is accepted", timeout=600),
+        H(NM, "c39", "c39_map_unvalidated_part", "{forward|backward = NaN | negative | +-inf} (f64 or integer) is rejected (was the known finding fixed by /repo cf1802a)", timeout=600),
     ],
 )
